@@ -143,7 +143,7 @@ def ctrsbox_sfista(xopt, g, H, projections, delta, h, L_h, prox_uh, argsh=(), ar
         prev_d = d.copy()
         prev_t = t
         # gradient_Fu at y
-        g_Fu = gradient_Fu(xopt, g, H, u, prox_uh, d, *argsprox)
+        g_Fu = gradient_Fu(xopt, g, H, u, prox_uh, d)
 
         # main update step
         d = proj(y - g_Fu / l)
@@ -154,7 +154,7 @@ def ctrsbox_sfista(xopt, g, H, projections, delta, h, L_h, prox_uh, argsh=(), ar
 
         # update true gradient
         # gnew is the gradient of the smoothed function
-        gnew = gradient_Fu(xopt, g, H, u, prox_uh, d, *argsprox)
+        gnew = gradient_Fu(xopt, g, H, u, prox_uh, d)
 
         # update CRVMIN
         crv = d.dot(H).dot(d)/sumsq(d) if sumsq(d) >= ZERO_THRESH else crvmin
